@@ -370,6 +370,7 @@ type jnScenario struct {
 	Pace      bool    `json:"pace"`   // the sender pauses before every delimiter (early flushes become visible)
 	Batch     bool    `json:"batch"`  // handlers registered through variadic calls where possible
 	Online    int     `json:"online"` // players already in the PlayerList (status: players.online)
+	Slow      bool    `json:"slow"`   // the recorder takes a moment per packet (the receive queue fills up)
 	BUUID     string  `json:"buuid"`  // what the bot is configured with (Auth.UUID, hex): "" unset, the offline UUID, or a foreign one
 }
 
@@ -651,6 +652,9 @@ func jnDoJoin(sc *jnScenario, log *jnLog, dialer *jnDialer, addr string) {
 				idx = calls
 			} else if len(p.Data) >= 6 && p.Data[0] == 0xA5 {
 				idx = int(binary.BigEndian.Uint32(p.Data[2:6]))
+			}
+			if sc.Slow {
+				time.Sleep(300 * time.Microsecond)
 			}
 			log.add(map[string]any{"k": "handled", "h": h, "idx": idx, "id": int(p.ID), "n": len(p.Data), "sha": jnSha(p.Data)})
 			if h == sc.Fail {
